@@ -288,6 +288,18 @@ def run(ctx):
 
         ctx.ob("EDIT", "replace|submesh-offset", has("index_offset", {"index_offset"}, {6}), "replace_vertices stores submeshes[i].index_offset of the caller's sub-mesh list (parameter `submeshes`)", rvb.file, rvb.line, sample=True)
         ctx.ob("EDIT", "replace|submesh-count", has("index_count", {"index_count"}, {6}), "replace_vertices stores submeshes[i].index_count of the caller's sub-mesh list", rvb.file, rvb.line)
+        # the rows of the header's sub-mesh table are addressed by the part's own hidden submesh_index: nothing in the
+        # edit may overwrite that index (whole-struct copies of a caller-supplied SubMesh carry the caller's index)
+        idx_writes = []
+        for bi_, _si, st_ in rvb.stmts():
+            if st_["k"] != "assign" or rvb.blocks[bi_]["cleanup"]:
+                continue
+            l_ = st_["lhs"]
+            whole = (l_.get("ty") or "").endswith("model::SubMesh") and bool(l_["p"])
+            fld = any(isinstance(pr, dict) and pr.get("n") == "submesh_index" for pr in l_["p"])
+            if whole or fld:
+                idx_writes.append(f"bb{bi_}")
+        ctx.ob("EDIT", "replace|keeps-submesh-index", not idx_writes, f"replace_vertices overwrites a SubMesh (or its submesh_index) {len(idx_writes)} time(s); the index addressing the header's sub-mesh table must stay the part's own", rvb.file, rvb.line)
         ctx.ob("EDIT", "replace|vertex-count", has("vertex_count", {"vertices"}, (), ("::len",)), "mesh.vertex_count = part.vertices.len()", rvb.file, rvb.line)
         ctx.ob("EDIT", "replace|index-count", has("index_count", {"indices"}, (), ("::len",)), "mesh.index_count = part.indices.len()", rvb.file, rvb.line)
         ctx.ob("EDIT", "replace|copies-input", has("vertices", (), {4}) and has("indices", (), {5}), "part.vertices / part.indices are copied from the caller's slices", rvb.file, rvb.line)
